@@ -794,7 +794,20 @@ def runUnpack (std : Stdlib) (c : Json) : R (Json × Option Json × Option Strin
       | .ok root =>
         let mo ← getOpts m "opts"
         let b ← parseGoData ((optField m "b").getD .null)
-        pure (cfgMerge mo root b)
+        let atP := strFieldD m "at" ""
+        if atP == "" then pure (cfgMerge mo root b)
+        else
+          -- merged through a handle on the sub-configuration at `at`
+          let po : Opts := { pathSep := "." }
+          let p := parsePathOpts atP po
+          match pathGet tcPlain p root with
+          | .ok (some node) =>
+            (match cfgMerge mo node b with
+             | .ok node' => pure (pathSet tcPlain po p root node')
+             | .err e => pure (.err e)
+             | .panic s => pure (.panic s)
+             | .fuel => pure .fuel)
+          | _ => throw "merge at: no such sub-configuration"
       | r => pure r) (.ok cfg0)
   let created : Outcome Val ← match newFrom co d with
     | .ok cfg0 => applyMerges cfg0
